@@ -2,7 +2,7 @@ import threading
 from typing import Any, TypeVar
 
 from reactivex import abc, typing
-from reactivex.disposable import SerialDisposable
+from reactivex.disposable import SerialDisposable, SingleAssignmentDisposable
 
 from .observer import Observer
 
@@ -52,9 +52,17 @@ class ScheduledObserver(Observer[_T_in]):
             if not self.has_faulted and self.queue:
                 is_owner = not self.is_acquired
                 self.is_acquired = True
+                if is_owner:
+                    # Each drain gets its own handle, registered while holding
+                    # the lock. Assigning the scheduled action directly to the
+                    # shared serial disposable from outside the lock lets a
+                    # caller that was preempted here overwrite, and thereby
+                    # cancel, the drain started by a later caller.
+                    pending = SingleAssignmentDisposable()
+                    self.disposable.disposable = pending
 
         if is_owner:
-            self.disposable.disposable = self.scheduler.schedule(self.run)
+            pending.disposable = self.scheduler.schedule(self.run)
 
     def run(self, scheduler: abc.SchedulerBase, state: Any) -> None:
         parent = self
